@@ -35,7 +35,7 @@ func isReservedHeader(k string) bool {
 	switch k {
 	case "content-type", "user-agent", "grpc-message-type", "grpc-encoding",
 		"grpc-message", "grpc-status", "grpc-timeout",
-		"grpc-status-details", "te":
+		"grpc-status-details-bin", "te":
 		return true
 	default:
 		return false
